@@ -346,6 +346,9 @@ pub fn exec_traced<'a>(ctx: &'a mut Ctx, sc: &'a Value, plan: &Value, tag: &str)
             }
         }
     }
+    if tracer.quiesce_timeouts > 0 {
+        *sub.probes.entry("quiescence_timeouts".into()).or_insert(0) += tracer.quiesce_timeouts;
+    }
     if tracer.ficlone_emulated > 0 {
         *sub.faults.entry("ficlone_emulated".into()).or_insert(0) += tracer.ficlone_emulated;
     }
@@ -377,7 +380,7 @@ pub fn exec_traced<'a>(ctx: &'a mut Ctx, sc: &'a Value, plan: &Value, tag: &str)
     for ev in &tracer.events {
         let p1 = ev.sys.path.as_ref().map(|p| norm_path(p, &root_s, &mut tmpnames)).unwrap_or_default();
         let p2 = ev.sys.path2.as_ref().map(|p| norm_path(p, &root_s, &mut tmpnames)).unwrap_or_default();
-        let line = format!("c{} #{} op{:?} {} {} {} len={:?} -> {} [{}]", ev.client, ev.ord, ev.op, ev.sys.name, p1, p2, ev.sys.len, if ev.ret == -9999 { "killed".to_string() } else { ev.ret.to_string() }, ev.action.label());
+        let line = format!("c{} #{} op{:?} {} {} {} len={:?} -> {} [{}]", ev.client, ev.ord, ev.op, ev.sys.name, p1, p2, ev.sys.len, if ev.ret == -9999 { "killed".to_string() } else if ev.ret >= 0 && matches!(ev.sys.nr, SYS_MMAP | SYS_OPEN | SYS_OPENAT | SYS_OPENAT2 | SYS_CREAT) { "ok".to_string() } else { ev.ret.to_string() }, ev.action.label());
         h = mix(h, hash_str(&line));
         ih = mix(ih, mix(ev.client as u64, hash_str(ev.sys.name)));
         sub.trace.push(line);
